@@ -444,6 +444,20 @@ def eigen_derivative(chk, code, R, rng):
             continue
         w, v, dw, dv = got
         R.push([], finite=True, rtype="eigh-finite", judged=True, exception=None, **base)
+        # the same derivative in REVERSE mode (how the library differentiates through the SCF): finite for every spectrum,
+        # and dual to the forward rule, <cw, dw> + <cv, dv> = <A_bar, Adot>, where the spectrum is non-degenerate
+        rv = np.random.default_rng(1800 + I["id"])
+        cw_, cv_ = rv.normal(size=n), rv.normal(size=(n, n))
+        gA, exc2 = scf.attempt(code.eigh_vjp, A, cw_, cv_)
+        if gA is None or not all_finite(gA):
+            R.push([], finite=False, rtype="eigh-finite", judged=True, exception=exc2 or "non-finite cotangent in reverse mode", **base)
+            continue
+        if o["nondegenerate"]:
+            lhs = float(np.sum(cw_ * dw) + np.sum(cv_ * dv))
+            rhs = float(np.sum(gA * Ad))
+            sc_d = max(1.0, float(np.abs(Ad).max()) / max(scf.qf(o["min_gap"]), 1e-3))
+            R.push([("reverse_forward_duality", abs(lhs - rhs), sc_d * max(1.0, abs(lhs)), TOL_DERIV)], finite=True, rtype="eigh-deriv", judged=True,
+                   exception=None, dw=dw.tolist(), exact_wdot=[scf.qf(g["wdot"]) for g in o["groups"]], **base)
         if cls == "exact-tie":
             stats["exact_tie"] += 1
             stats["bitwise_equal_eigenvalues_from_lapack"] += int(len(set(w.tolist())) < n)
